@@ -154,21 +154,23 @@ def rule_k2(ctx):
             rep.ob('K2', K.key(cls, '__len__', 'tabled'), True, lmem.node, K2_TABLE[cls.name], nontrivial=False)
             continue
         if lc == 'conditional-forward':
-            # PrefetchDataset: forward only when not catching
+            # PrefetchDataset: the length is forwarded only on paths where no catch selection is configured
             fnl = lmem.node
-            ok = False
-            for n_if in A.walk_local(fnl):
-                if isinstance(n_if, ast.If) and any(A.is_self_attr(x) and 'catch' in x.attr for x in ast.walk(n_if.test)):
-                    t, neg = A.strip_not(n_if.test)
-                    if not (A.is_self_attr(t) and 'catch' in t.attr):
-                        # e.g. `is True`: narrower than "any selection configured"
-                        ok = False
-                        continue
-                    raising = n_if.orelse if neg else n_if.body
-                    fwd = n_if.body if neg else n_if.orelse
-                    ok = any(isinstance(x, ast.Raise) for x in A.walk_stmts(raising)) and \
-                        any(isinstance(x, ast.Return) for x in A.walk_stmts(fwd)) and \
-                        not any(isinstance(x, ast.Return) for x in A.walk_stmts(raising))
+
+            def catch_cond(node):
+                """truthiness of the catch selection on the path to node: True / False / None (not tested) /
+                'narrow' (tested with is True etc.)"""
+                res = None
+                for t0, truth in flow.guards_of(node, fnl):
+                    t, neg = A.strip_not(t0)
+                    if A.is_self_attr(t) and 'catch' in t.attr:
+                        res = (truth != neg)
+                    elif any(A.is_self_attr(x) and 'catch' in x.attr for x in ast.walk(t0)):
+                        return 'narrow'
+                return res
+            rets_ = [r for r in flow.returns_of(fnl) if r.value is not None]
+            raises_ = [r for r in A.walk_local(fnl) if isinstance(r, ast.Raise)]
+            ok = bool(rets_) and all(catch_cond(r) is False for r in rets_) and any(catch_cond(r) is True for r in raises_)
             rep.ob('K2', K.key(cls, '__len__', 'raises-when-catching'), ok, fnl,
                    '' if ok else 'length is forwarded although examples may be dropped by catch_filter_exception')
             continue
@@ -735,21 +737,44 @@ def rule_na(ctx):
             return e
         hi = strip_item(hi)
         hi_ok = isinstance(hi, ast.Subscript) and A.is_self_attr(hi.value, offs) and A.is_name(hi.slice, idx)
-        lo_ok = False
-        if isinstance(lo, ast.IfExp):
-            t, neg = A.strip_not(lo.test)
-            zero_when = None
+
+        def zero_test(test):
+            """-> True if test means idx == 0, False if it means idx != 0, else None"""
+            t, neg = A.strip_not(test)
             if isinstance(t, ast.Compare) and len(t.ops) == 1 and A.is_name(t.left, idx) and A.int_value(t.comparators[0]) == 0:
                 if isinstance(t.ops[0], ast.Eq):
-                    zero_when = not neg
-                elif isinstance(t.ops[0], ast.NotEq):
-                    zero_when = neg
-            if zero_when is not None:
-                z = lo.body if zero_when else lo.orelse
-                o = strip_item(lo.orelse if zero_when else lo.body)
-                lo_ok = A.int_value(z) == 0 and isinstance(o, ast.Subscript) and A.is_self_attr(o.value, offs) \
-                    and isinstance(o.slice, ast.BinOp) and isinstance(o.slice.op, ast.Sub) and A.is_name(o.slice.left, idx) \
-                    and A.int_value(o.slice.right) == 1
+                    return not neg
+                if isinstance(t.ops[0], ast.NotEq):
+                    return neg
+            return None
+
+        def is_prev(e):
+            o = strip_item(e)
+            return isinstance(o, ast.Subscript) and A.is_self_attr(o.value, offs) and isinstance(o.slice, ast.BinOp) \
+                and isinstance(o.slice.op, ast.Sub) and A.is_name(o.slice.left, idx) and A.int_value(o.slice.right) == 1
+        lo_ok = False
+        if isinstance(lo, ast.IfExp):
+            z = zero_test(lo.test)
+            if z is not None:
+                zero_arm, other = (lo.body, lo.orelse) if z else (lo.orelse, lo.body)
+                lo_ok = A.int_value(zero_arm) == 0 and is_prev(other)
+        elif isinstance(lo, ast.Name):
+            # if idx == 0: start = 0  else: start = offsets[idx-1]
+            seen0 = seenp = False
+            n_defs = 0
+            for n in A.walk_local(g):
+                if isinstance(n, ast.Assign) and A.is_name(n.targets[0], lo.id):
+                    n_defs += 1
+                    z = None
+                    for t0, truth in flow.guards_of(n, g):
+                        zt = zero_test(t0)
+                        if zt is not None:
+                            z = (zt == truth)
+                    if z is True and A.int_value(n.value) == 0:
+                        seen0 = True
+                    if z is False and is_prev(n.value):
+                        seenp = True
+            lo_ok = seen0 and seenp and n_defs == 2
         ok = hi_ok and lo_ok
         why = '' if ok else 'element i must be buffer[(0 if i == 0 else offsets[i-1]) : offsets[i]]; found [%s : %s]' % (
             A.short(lo, 50), A.short(hi, 30))
